@@ -1,0 +1,31 @@
+//go:build verif
+
+// Contracts for the tvc verifier (/verif). Comment-only: with the `verif` tag off this file does not exist,
+// with it on it adds no code. Syntax: /verif/DESIGN.md appendix A.
+
+package node
+
+//@ for C03
+
+//@ # the node agent has reported the teardown of the pod that owned the address (set where the report is read)
+//@ ghost c03torn bool = false
+
+//@ func releasePodNotFound
+//@   at call RuntimeFinalStatus: ghost c03torn = (result2 && result0 == "deleted")
+
+//@ # An address is unbound from its pod only if the pod object is gone (not among the node's pods) and, when the record
+//@ # carries the pod UID, the node agent has reported that pod's teardown as its latest status
+//@ guard store IP.PodID in releasePodNotFound: value != "" || (!(target.PodID in podsMapper) && (target.PodUID == "" || c03torn))
+
+//@ # An address is marked for deletion only while it is unbound and not the interface's primary address
+//@ guard store IP.Status in releaseUnUsedIP: value != "Deleting" || (target.PodID == "" && !target.Primary)
+
+//@ # in-use counts: zero means no entry carries an owner
+//@ func IPUsage
+//@   modifies nothing
+//@   ensures result1 == 0 ==> forall k string :: k in eniIP ==> eniIP[k].PodID == ""
+//@   ensures result0 >= 0 && result1 >= 0
+//@   loop 1 invariant inUse >= 0 && idle >= 0 && (inUse == 0 ==> forall k string :: seen(k) ==> eniIP[k].PodID == "")
+
+//@ # An interface is marked for deletion only if none of its addresses (IPv4 or IPv6) is bound to a pod
+//@ guard store NetworkInterface.Status in releaseUnUsedIP: value != "Deleting" || ((forall k string :: k in target.IPv4 ==> target.IPv4[k].PodID == "") && (forall k string :: k in target.IPv6 ==> target.IPv6[k].PodID == ""))
